@@ -135,8 +135,13 @@ func execWorkerT3(t *trace, script []string) {
 func workerHammer(holders, millis, seed int) string {
 	var w bigbuff.Worker
 	var held, bad, instances atomic.Int64
+	var nilStop atomic.Int64
 	fn := func(stop <-chan struct{}) {
 		instances.Add(1)
+		if stop == nil {
+			nilStop.Add(1) // an instance that can never be told to stop
+			return
+		}
 		<-stop
 		if held.Load() > 0 {
 			bad.Add(1)
@@ -166,6 +171,9 @@ func workerHammer(holders, millis, seed int) string {
 	}
 	if !waitTimeout(&wg, stepTimeout) {
 		return "stuck"
+	}
+	if n := nilStop.Load(); n > 0 {
+		return fmt.Sprintf("held_when_stopped=%d instances_without_a_stop_channel=%d", bad.Load(), n)
 	}
 	return fmt.Sprintf("held_when_stopped=%d", bad.Load())
 }
